@@ -23,7 +23,7 @@ from cv.tlc import run_tlc, must_ok
 from cv.trace import validate_trace
 
 LEVEL = "model_checking"
-QUANT = ["modulus_adiabatic", "modulus_isothermal", "tp_bulk_vrh", "tp_vp", "tp_volumes", "compliances"]
+QUANT = ["modulus_adiabatic", "modulus_isothermal", "tp_modulus_adiabatic", "tp_modulus_isothermal", "tp_bulk_vrh", "tp_vp", "tp_volumes", "compliances"]
 WRITES = [("tp", "cij"), ("tp", "bm_VRH"), ("tv", "p")]
 
 
@@ -106,6 +106,9 @@ def main(ctx, replay=None):
     behaviours.append(({"seed": "1", "cwd": "junk"}, [["Construct", 1, "A"], ["WriteOutput", 1], ["WriteOutput", 1], ["Read", 1, "tp_vp"], ["WriteOutput", 1]]))
     behaviours.append(({"seed": "2", "cwd": "empty"}, [["Construct", 1, "A"], ["Construct", 2, "C"], ["WriteOutput", 1], ["WriteOutput", 2], ["Write", 1, "tp", "cij"],
                                                       ["Write", 2, "tp", "cij"], ["Write", 2, "tv", "p"], ["Write", 1, "tv", "p"]]))
+    # the pressure-base tensors in the other order than the reference run reads them
+    behaviours.append(({"seed": "1", "cwd": "empty"}, [["Construct", 1, "A"], ["Read", 1, "tp_modulus_isothermal"], ["Read", 1, "tp_modulus_adiabatic"],
+                                                      ["Read", 1, "tp_modulus_isothermal"], ["WriteOutput", 1], ["WriteOutput", 1]]))
     behaviours.append(({"seed": "0", "cwd": "shadow_data"}, [["Construct", 1, "A"], ["Write", 1, "tp", "cij"], ["WriteOutput", 1], ["CliRun", "A"]]))
     # the files at a path are replaced between two calculations: the second one is the calculation of the NEW content
     behaviours.append(({"seed": "2", "cwd": "junk"}, [["Construct", 1, "A"], ["Read", 1, "modulus_adiabatic"], ["Rewrite", "A", "C"], ["Construct", 2, "A"],
@@ -132,6 +135,10 @@ def main(ctx, replay=None):
         dsC.amp = dsC.amp * 1.03
         dsC.settings = dict(dsC.settings, DT=float(dsC.settings["DT"]) * 0.5, DT_SAMPLE=float(dsC.settings["DT"]) * 0.5)
         datasets, systems = {}, {"A": "hexagonal", "B": None, "C": "hexagonal"}
+        # (output sections may hold dictionaries - keyword with a unit or file name - next to plain keywords)
+        dsA.output = {"pressure_base": ["cij", {"keyword": "bm_VRH", "fname": "bulk_hill.dat"}, "G_VRH", "v", {"keyword": "vs", "unit": "m/s"}, "vp"],
+                      "volume_base": ["p", {"keyword": "cij_t", "unit": "kbar"}]}
+        dsC.output = dsA.output
         for c, ds in (("A", dsA), ("B", dsB), ("C", dsC)):
             d = wd.sub(f"data{c}")
             ds.fit_pressure_window(d)
